@@ -47,8 +47,8 @@ class C14(Prop):
     id = "C14"
     level = "exploration"
     tiers = {
-        "quick": [("sync", 40000), ("async", 30000), ("async-sweep", 3000)],
-        "thorough": [("sync", 800000), ("async", 700000), ("async-sweep", 80000)],
+        "quick": [("sync", 240000), ("async", 180000), ("async-sweep", 18000)],
+        "thorough": [("sync", 4800000), ("async", 3600000), ("async-sweep", 360000)],
     }
     rule_text = (
         "one case = (limit 1..4, catching as class/tuple/set/default, delay None/int/float/callable, outcome "
